@@ -280,6 +280,55 @@ theorem stale_unregister_witness_repaired :
         s.names.get (cKickSameName.nameOf 1), s.log.getLast?)) =
       some (true, false, some 1, some 1, some (.disc 0 .successful)) := by decide
 
+/-! ### the registry does not depend on how an individual login was authenticated -/
+
+/-- `player.OnlineMode()` (true on an offline-mode proxy only for a login whose online mode a
+    PreLoginEvent subscriber forced) is a dimension of `Cfg` all theorems above quantify over; the
+    repaired machine never reads it: changing it arbitrarily changes no step -/
+theorem registry_ignores_login_online_flag (c : Cfg) (f : Pid → Bool) (s : Sys) (t : Nat) :
+    step Mode.repaired { c with onlineOf := f } s t = step Mode.repaired c s t := by
+  unfold step
+  split
+  · rename_i task rest _
+    cases task with
+    | call cl => cases cl <;> rfl
+    | setDup e => rfl
+    | unreg p => rfl
+    | fire p fd => rfl
+    | unregWrite p fd o => rfl
+  · rfl
+
+theorem exec_ignores_login_online_flag (c : Cfg) (f : Pid → Bool) (s : Sys) (sched : List Nat) :
+    exec Mode.repaired { c with onlineOf := f } s sched = exec Mode.repaired c s sched := by
+  induction sched generalizing s with
+  | nil => rfl
+  | cons t ts ih =>
+    simp only [exec, registry_ignores_login_online_flag]
+    cases step Mode.repaired c s t with
+    | none => rfl
+    | some s1 => exact ih s1
+
+/-- kick mode decided per login (`Kick && (OnlineMode || player.OnlineMode())`): offline proxy with the
+    kick flag, "steve" (offline login, uuid 0) registered, then "Steve" (uuid 1) whose online mode was
+    forced logs in — strictly sequentially: canRegister says yes without looking, registerConnection takes
+    the kick branch (UUIDs only) and overwrites steve's name entry: two registered players share one
+    lower-case name while kick mode is off, steve is connected but not findable by name -/
+def cForcedOnline : Cfg :=
+  { online := false, kickFlag := true, nameOf := fun _ => 7, idOf := fun p => p, onlineOf := fun p => p == 1 }
+def onlyKickPerLogin : Mode := { Mode.repaired with kickPerLogin := true }
+def witnessPerLogin (m : Mode) : Option Sys :=
+  exec m cForcedOnline (mkSys [[.canReg 0, .reg 0], [.canReg 1, .reg 1]]) [0, 0, 1, 1]
+
+theorem per_login_kick_fails :
+    (witnessPerLogin onlyKickPerLogin).map (fun s => ((s.ids.get 0, s.ids.get 1, s.names.get 7),
+        (s.regd 0, s.torn 0, cForcedOnline.kickMode), s.log)) =
+      some ((some 0, some 1, some 1), (true, false, false), [.ret 0 true, .ret 0 true, .ret 1 true, .ret 1 true]) := by
+  decide
+theorem per_login_kick_witness_repaired :
+    (witnessPerLogin Mode.repaired).map (fun s => ((s.ids.get 0, s.ids.get 1, s.names.get 7), s.log)) =
+      some ((some 0, (none : Option Pid), some 0), [.ret 0 true, .ret 0 true, .ret 1 false, .ret 1 false]) := by
+  decide
+
 /-! ### non-vacuity: kick mode really kicks, then registers -/
 
 /-- online + kick flag, same UUID: the newcomer's thread marks, disconnects and tears down the older
@@ -336,6 +385,15 @@ theorem registry_lock_shape_exact :
     muOps "p.muP" Gate.Gen.C11.playerCountCalls = ["p.muP.RLock", "defer:p.muP.RUnlock"] ∧
     -- nothing returns from unregisterConnection before its section (no fast path around the lock)
     (Gate.Gen.C11.unregisterCalls.takeWhile (· ≠ "p.muP.Lock")).contains "return" = false := by decide
+
+/-- (secondary signal) the only things the two admission functions ask the PLAYER for are its name and
+    its UUID; the mode comes from `p.config()` alone — no per-login predicate is called -/
+theorem admission_reads_config_name_id_only :
+    Gate.Gen.C11.canRegisterCalls.filter (fun c => !["p.muP.RLock", "defer:p.muP.RUnlock", "return"].contains c) =
+      ["p.config", "player.Username", "strings.ToLower", "player.ID"] ∧
+    (Gate.Gen.C11.registerCalls.filter (fun c => !["p.muP.Lock", "p.muP.Unlock", "return"].contains c)).eraseDups =
+      ["player.Username", "strings.ToLower", "p.config", "player.ID",
+       "existing.disconnectDueToDuplicateConnection.Store", "existing.Disconnect"] := by decide
 
 /-- registerConnection: one `Lock`; every exit after it is preceded by `Unlock` (no lock leak) -/
 theorem register_exits_unlocked :
